@@ -94,6 +94,22 @@ def _zi(x):
     return None
 
 
+def _zr(x):
+    """z3 Real term for a number (proxy or concrete), or None."""
+    if isinstance(x, SymFloat):
+        return x.e
+    if isinstance(x, SymInt):
+        return z3.ToReal(x.e)
+    if type(x) is bool:
+        return z3.RealVal(int(x))
+    if type(x) is int:
+        return z3.RealVal(x)
+    if type(x) is float and x == x and x not in (float("inf"), float("-inf")):
+        n, d = x.as_integer_ratio()
+        return z3.RealVal(n) / z3.RealVal(d)
+    return None
+
+
 class SymBool:
     __slots__ = ("e",)
 
@@ -177,6 +193,9 @@ class SymInt:
         if b is None:
             if isinstance(o, SymReal):
                 return NotImplemented
+            r = _zr(o)  # a float or a SymFloat: compare as reals
+            if r is not None:
+                return SymBool(f(z3.ToReal(self.e), r))
             return default
         return SymBool(f(self.e, b))
 
@@ -279,6 +298,83 @@ class SymReal:
     __slots__ = ()
 
 
+class SymFloat:
+    """A float-typed field value: the rational k/4 for a symbolic integer k (z3 Real term).
+
+    Quarters are exactly representable doubles for |k| < 2^53, so a model replays exactly;
+    what this adds over SymInt is a value that is NOT an integer and whose `__class__` is
+    float (isinstance(x, float) True, isinstance(x, int) False)."""
+
+    __slots__ = ("e",)
+
+    def __init__(self, e):
+        self.e = e
+
+    @property
+    def __class__(self):
+        return float
+
+    def _cmp(self, o, f, default, same):
+        if type(o) is SymFloat and (o is self or o.e.eq(self.e)):
+            return same
+        r = _zr(o)
+        if r is None:
+            return default
+        return SymBool(f(self.e, r))
+
+    def __lt__(self, o):
+        return self._cmp(o, lambda a, b: a < b, NotImplemented, False)
+
+    def __le__(self, o):
+        return self._cmp(o, lambda a, b: a <= b, NotImplemented, True)
+
+    def __gt__(self, o):
+        return self._cmp(o, lambda a, b: a > b, NotImplemented, False)
+
+    def __ge__(self, o):
+        return self._cmp(o, lambda a, b: a >= b, NotImplemented, True)
+
+    def __eq__(self, o):
+        return self._cmp(o, lambda a, b: a == b, False, True)
+
+    def __ne__(self, o):
+        return self._cmp(o, lambda a, b: a != b, True, False)
+
+    def __bool__(self):
+        return CUR.decide(self.e != 0)
+
+    def __neg__(self):
+        return SymFloat(-self.e)
+
+    def __pos__(self):
+        return self
+
+    def __hash__(self):
+        if HASH_OK[0]:
+            return 0
+        raise ProxyEscape("hash(SymFloat)")
+
+    def __deepcopy__(self, memo):
+        return self
+
+    def __copy__(self):
+        return self
+
+    def __repr__(self):
+        return f"SymFloat({self.e})"
+
+    __index__ = _escape("__index__")
+    __int__ = _escape("int()")
+    __float__ = _escape("float()")
+    __str__ = _escape("str()")
+    __format__ = _escape("format()")
+    __round__ = _escape("round()")
+    __trunc__ = _escape("trunc()")
+    __floordiv__ = _escape("//")
+    __mod__ = _escape("%")
+    __add__ = __radd__ = __sub__ = __rsub__ = __mul__ = __rmul__ = __truediv__ = __rtruediv__ = _escape("arithmetic")
+
+
 # --------------------------------------------------------------------------- engine
 
 
@@ -287,6 +383,23 @@ def _z3_unescape(s):
     import re
 
     return re.sub(r"\\u\{([0-9a-fA-F]+)\}", lambda m: chr(int(m.group(1), 16)), s)
+
+
+def _raised_in_harness(exc):
+    """True if the innermost frame of the exception is harness code (under /verif), i.e. the
+    exception was not raised by the code under test or by a library it called."""
+    import os
+
+    tb = exc.__traceback__
+    last = None
+    while tb is not None:
+        last = tb
+        tb = tb.tb_next
+    if last is None:
+        return False
+    fn = os.path.realpath(last.tb_frame.f_code.co_filename)
+    here = os.path.dirname(os.path.dirname(os.path.realpath(__file__)))
+    return fn.startswith(here + os.sep) and isinstance(exc, (AttributeError, TypeError, NameError, KeyError, IndexError, ImportError))
 
 
 class Engine:
@@ -392,6 +505,11 @@ class Engine:
             if hi is not None:
                 self.solver.add(v <= hi)
         return SymInt(v)
+
+    def sym_quarter(self, name):
+        """A float-typed value k/4, k an unbounded symbolic int (input `name` = k)."""
+        k = self.sym_int(name)
+        return SymFloat(z3.ToReal(k.e) / 4)
 
     def sym_bool(self, name):
         v = z3.Bool(name)
@@ -506,6 +624,11 @@ class Engine:
                 except Exception as exc:  # harness let a real exception through
                     import traceback
 
+                    if _raised_in_harness(exc):
+                        # e.g. AttributeError on a private attribute the harness touches: the
+                        # harness no longer fits the code under test - not a verdict about it
+                        res.update(verdict="error", msg=f"harness exception {type(exc).__name__}: {exc}", notes={"traceback": traceback.format_exc()[-1500:]})
+                        break
                     res.update(
                         verdict="cex",
                         msg=f"unexpected {type(exc).__name__}: {exc}",
@@ -572,6 +695,9 @@ class ConcreteEngine:
         v = int(self._get(name, lo if lo is not None else 0))
         return v
 
+    def sym_quarter(self, name):
+        return int(self._get(name, 0)) / 4
+
     def sym_bool(self, name):
         return bool(self._get(name, False))
 
@@ -609,6 +735,10 @@ class ConcreteEngine:
                 "msg": c.msg,
                 "notes": {k: repr(v) for k, v in self.notes.items()},
             }
+        except Exception as exc:
+            if _raised_in_harness(exc):
+                return {"verdict": "error", "msg": f"harness exception {type(exc).__name__}: {exc}"}
+            return {"verdict": "cex", "msg": f"unexpected {type(exc).__name__}: {exc}"}
         finally:
             CUR = None
 
@@ -622,6 +752,10 @@ def sym_int(name, lo=None, hi=None):
 
 def sym_bool(name):
     return CUR.sym_bool(name)
+
+
+def sym_quarter(name):
+    return CUR.sym_quarter(name)
 
 
 def choose(name, n):
